@@ -487,8 +487,10 @@ func (m *zzM_%(N)s) sort(desc bool) {
     def keyfn(self):
         N, K = self.N, self.K
         if not self.isset:
-            conc = {'i32': '[]int32{300, -1, math.MinInt32, 1234567, 0}', 'i64': '[]int64{1 << 36, -1, math.MinInt64, 1234567, 0}',
-                    'f32': '[]float32{0, -1.5, 1e30, 0.1, -0}', 'box': '[]int64{1 << 36, -1, math.MinInt64, 1234567, 0}'}[self.v]
+            # (index 1 is used first: the zero value — the default "absent" value NONE — comes first,
+            # so that histories of two insertions already store it)
+            conc = {'i32': '[]int32{300, 0, -1, math.MinInt32, 1234567}', 'i64': '[]int64{1 << 36, 0, -1, math.MinInt64, 1234567}',
+                    'f32': '[]float32{-1.5, 0, 1e30, 0.1, -0}', 'box': '[]int64{1 << 36, 0, -1, math.MinInt64, 1234567}'}[self.v]
             self.w('''func zzVal_%(N)s(ref *zzM_%(N)s) %(vt)s {
 	if ref.plainVals {
 		ref.nv++
